@@ -34,7 +34,7 @@ PROPS = {
     "C12": dict(
         verus=["glyf", "charstring"],
         standins=["fontsubset"],
-        not_decided="proved per function: component closure, glyph-index remapping, instruction stripping (result is the same glyph description with instructionLength 0 / WE_HAVE_INSTRUCTIONS cleared), glyf/loca assembly (every loca entry decodes to the real, even start offset of its glyph). Not proved: that these compose to 'same flattened outline' (needs a glyf renderer as spec: covered only by the bounded stand-in fontsubset, synthetic fonts with an independent glyf reader), hmtx/hhea/maxp/head rebuild and the table directory (stand-in only), cmap glyph selection. CFF: the charstring desubroutiniser is under contract (unit charstring: Type 2 number decoding and subroutine bias against Technical Note #5177, operand-stack bookkeeping invariant, hint-mask width = ceil(stems declared incl. the implicit vstemhm / 8) and fixed after the first mask, every non-call byte copied verbatim, termination through the depth bound); NOT that the inlined subroutine bodies are the right ones end to end (subr_item / INDEX lookup is a stub), nor the CFF table rebuild (Top DICT, charset, FDSelect, offsets) of cff_subsetter.rs, which has neither a contract nor a stand-in",
+        not_decided="proved per function: component closure, glyph-index remapping, instruction stripping (result is the same glyph description with instructionLength 0 / WE_HAVE_INSTRUCTIONS cleared), glyf/loca assembly (every loca entry decodes to the real, even start offset of its glyph), hmtx rebuild (entry k = metrics of the original glyph that became glyph k). Not proved: that these compose to 'same flattened outline' (needs a glyf renderer as spec: covered only by the bounded stand-in fontsubset, synthetic fonts with an independent glyf reader), hhea/maxp/head rebuild and the table directory (stand-in only), cmap glyph selection. CFF: the charstring desubroutiniser is under contract (unit charstring: Type 2 number decoding and subroutine bias against Technical Note #5177, operand-stack bookkeeping invariant, hint-mask width = ceil(stems declared incl. the implicit vstemhm / 8) and fixed after the first mask, every non-call byte copied verbatim, termination through the depth bound); NOT that the inlined subroutine bodies are the right ones end to end (subr_item / INDEX lookup is a stub), nor the CFF table rebuild (Top DICT, charset, FDSelect, offsets) of cff_subsetter.rs, which has neither a contract nor a stand-in",
     ),
     "C04": dict(
         verus=["prevmerge"],
